@@ -33,6 +33,35 @@ def comparisons(fn):
     return out
 
 
+def float_comparisons(fn):
+    """[(op, a-sym, b-sym, bb, owner-fn)] for f64 ordering comparisons anywhere in fn's region (closures included)."""
+    out = []
+    for g in fn.region():
+        sy = Sym(g)
+        b = g.body
+        for i, k, s in b.stmts():
+            if s["k"] == "assign" and s["rv"]["k"] == "bin" and s["rv"]["op"] in ("Lt", "Le", "Gt", "Ge") and not s.get("exp"):
+                pa = s["rv"]["a"].get("copy") or s["rv"]["a"].get("move")
+                pb = s["rv"]["b"].get("copy") or s["rv"]["b"].get("move")
+                tys = [b.local_ty(p_["l"]) for p_ in (pa, pb) if p_ and not p_.get("pr")]
+                if any("f64" in t for t in tys):
+                    out.append((s["rv"]["op"], sy.operand(s["rv"]["a"]), sy.operand(s["rv"]["b"]), i, g))
+        for c in nonforeign_calls(g):
+            if c.fn is g and c.is_("PartialOrd::lt", "PartialOrd::le", "PartialOrd::gt", "PartialOrd::ge") and "f64" in repr(c.t.get("gargs")) + (c.t.get("self_ty") or ""):
+                a = arg_syms(c)
+                out.append((callee_method_name(c).capitalize(), a[0], a[1], c.bb, g))
+    return out
+
+
+def _is_sample_side(x, owner, root):
+    """the operand that carries the recorded sample: derived from parameter 1 of record/record_many (directly, or
+    through a capture when the comparison sits in a closure)"""
+    txt = repr(x)
+    if owner is root:
+        return "('arg', 1" in txt and "'bounds'" not in txt
+    return "('capture'" in txt and "'bounds'" not in txt
+
+
 def field_updates(fn, field):
     """assignments to self.<field>: [(bb, value-sym)]"""
     out = []
@@ -64,14 +93,20 @@ def run(ctx):
         for nm, f in (("record", rec), ("record_many", rm)):
             if not f:
                 continue
-            cs = [c for c in comparisons(f) if "'bounds'" in repr(c[2]) or "'bounds'" in repr(c[1])]
+            cs = float_comparisons(f)
             if len(cs) != 1:
-                chk.unrecognised("C15.a", f"{f.path} [bound comparison]", f"expected one comparison against the bounds, found {len(cs)}", f.loc())
+                chk.unrecognised("C15.a", f"{f.path} [bound comparison]", f"expected one comparison of the sample against a bound, found {len(cs)}", f.loc())
                 continue
-            op, a, b_, bb = cs[0]
-            if "'bounds'" in repr(a) and "'bounds'" not in repr(b_):
+            op, a, b_, bb, owner = cs[0]
+            sa, sb = _is_sample_side(a, owner, f), _is_sample_side(b_, owner, f)
+            if sa == sb:
+                chk.unrecognised("C15.a", f"{f.path} [bound comparison]", f"cannot tell the sample from the bound in {sym_str(a)[:40]} {op} {sym_str(b_)[:40]}", f.loc())
+                continue
+            if sb:
                 # normalise to (sample OP bound)
                 op = {"Lt": "Gt", "Le": "Ge", "Gt": "Lt", "Ge": "Le"}[op]
+            if owner is not f:
+                bb = None
             ops[nm] = (op, f, bb)
             chk.ob("C15.a", f"{f.path} [operator]", op == "Le", "bucket test is sample <= bound" if op == "Le" else f"bucket test is sample {op} bound: Prometheus buckets count samples <= le (a sample equal to a bound belongs to that bucket)", f.loc())
         if len(ops) == 2:
@@ -90,6 +125,15 @@ def run(ctx):
             # after the increment control returns to the loop head (no break)
             heads = [c.bb for c in nonforeign_calls(rec) if c.is_("Iterator::next")]
             okl = okl and heads and all(heads[0] in b.reachable(i) for i in bu)
+            if not okl:
+                # iterator spelling: bounds.iter().zip(buckets.iter_mut()).filter(<the comparison>).for_each(|..| *count += 1)
+                for c in nonforeign_calls(rec):
+                    if c.fn is rec and c.is_("Iterator::for_each") and not in_cycle(b, c.bb):
+                        src = sym_str(arg_syms(c)[0])
+                        chain = set(__import__("re").findall(r"([a-z_]+)\(", src))
+                        cmp_in_filter = any(o[4] is not rec for o in float_comparisons(rec))
+                        if "filter" in chain and "zip" in chain and "bounds" in src and "buckets" in src and cmp_in_filter and not (chain & {"take", "skip", "rev", "step_by", "take_while", "skip_while", "nth", "last", "find", "position"}):
+                            okl = True
             chk.ob("C15.a", f"{rec.path} [every bound >= sample]", okl, "record increments every bucket whose bound admits the sample (no early exit)" if okl else "record stops at the first matching bucket without a cumulative pass: counts are not cumulative", rec.loc())
         if rm:
             b = rm.body
@@ -111,7 +155,9 @@ def run(ctx):
                 hi_t = strip_sym(hi_t)
                 if const_int(lo) == 0 and hi_t[0] == "bin" and hi_t[1].startswith("Sub") and const_int(hi_t[3]) == 1 and "len" in sym_str(hi_t[2]):
                     okc = True
-            guard = any(op in ("Ge", "Gt") and "len" in sym_str(a) and const_int(b_) in (1, 2) for op, a, b_, bb in comparisons(rm))
+                if const_int(lo) == 1 and sym_is_call(hi_t, "len") or (const_int(lo) == 1 and "len(" in sym_str(hi_t) and hi_t[0] == "call"):
+                    okc = guard1 = True  # 1..len with x[i] += x[i - 1]: empty for len < 2, no guard needed
+            guard = locals().get("guard1", False) or any(op in ("Ge", "Gt") and "len" in sym_str(a) and const_int(b_) in (1, 2) for op, a, b_, bb in comparisons(rm))
             chk.ob("C15.a", f"{rm.path} [cumulative pass]", okc and guard, "bucketed[i + 1] += bucketed[i] for i in 0..len-1 (guarded for len < 2)" if okc and guard else "record_many has no cumulative pass over 0..len-1: batch counts are per-bucket, not cumulative", rm.loc())
             # break after the first match in the sample loop: the local-bucket increment block does not reach the inner loop head again
             inner_heads = [c for c in nonforeign_calls(rm) if c.is_("Iterator::next") and "enumerate" in sym_str(arg_syms(c)[0]).lower()]
@@ -124,6 +170,10 @@ def run(ctx):
                         head = inner_heads[0].bb
                         if head not in b.reachable(tgt, cut={c.bb for c in nonforeign_calls(rm) if c.is_("Iterator::next") and c.bb != head}):
                             okb = True
+            if not okb:
+                pos = [c for c in nonforeign_calls(rm) if c.is_("Iterator::position", "Iterator::find", "Iterator::find_map") and "'bounds'" in repr(arg_syms(c)[0])]
+                if len(pos) == 1 and any(o[4] is not rm for o in float_comparisons(rm)):
+                    okb = True  # position()/find() stop at the first bound that admits the sample
             chk.ob("C15.a", f"{rm.path} [first matching bound only]", okb, "each sample is counted in the first bound that admits it (then made cumulative)" if okb else "record_many counts a sample in several local buckets before the cumulative pass (double counting)", rm.loc())
         bk = one_method(chk, "C15.a", u, H, "buckets")
         if bk:
@@ -175,13 +225,13 @@ def run(ctx):
             finds = []
             for g_ in gd.region():
                 for c in nonforeign_calls(g_):
-                    if c.is_("Iterator::find", "Iterator::find_map") and "bucket_overrides" in repr(arg_syms(c)[0]):
+                    if c.is_("Iterator::find", "Iterator::find_map"):
                         cl = strip_sym(arg_syms(c)[1])
                         cf = next((x for x in g_.region() if x.path == cl[5]), None) if cl[0] == "agg" and cl[1] == "closure" else None
                         if cf is not None and any(cc.is_("Matcher::matches") and "('arg', 1" in repr(arg_syms(cc)[1]) for cc in nonforeign_calls(cf)):
                             finds.append(c)
             ors = [c for c in nonforeign_calls(gd) if c.is_("Option<T>::or", "Option<T>::or_else")]
-            find_first = bool(finds) and any("Iterator::find" in repr(arg_syms(c)[0]) and "'buckets'" in repr(arg_syms(c)[1]) and "bucket_overrides" not in repr(arg_syms(c)[1]) for c in ors)
+            find_first = bool(finds) and any("bucket_overrides" in repr(arg_syms(c)[0]) and "'buckets'" in repr(arg_syms(c)[1]) and "bucket_overrides" not in repr(arg_syms(c)[1]) for c in ors)
             if not ok and find_first:
                 ok = True
             chk.ob("C15.b", f"{gd.path} [overrides before global buckets]", ok, "per-metric overrides are consulted before the global buckets" if ok else "global buckets are consulted before (or instead of) per-metric overrides", gd.loc())
@@ -238,23 +288,30 @@ def run(ctx):
         for nm, f, hof in (("add", add, "retain"), ("snapshot", snap, "filter")):
             if not f:
                 continue
-            hc = [c for c in nonforeign_calls(f) if c.fn is f and callee_method_name(c) == hof]
             cs = [c for c in nonforeign_calls(f) if c.fn is f and c.is_("Instant::checked_sub")]
-            ok = len(hc) == 1 and len(cs) == 1
+            ts = 2 if nm == "add" else 1
             form = None
-            if ok:
+            if len(cs) == 1:
                 a = arg_syms(cs[0])
-                cut_ok = is_param(a[0], 2 if nm == "add" else 1) and "'max_bucket_duration'" in repr(a[1])
-                cl = strip_sym(Sym(f).operand(hc[0].args[1]))
-                cf = p.fn(cl[5]) if cl[0] == "agg" and cl[1] == "closure" else None
-                if cf is not None and cut_ok:
-                    cmps = comparisons(cf)
-                    cmps = [c for c in cmps if "'begin'" in repr(c[1]) or "'begin'" in repr(c[2])]
-                    if len(cmps) == 1:
-                        op, x, y, _ = cmps[0]
-                        if "'begin'" in repr(y) and "'begin'" not in repr(x):
+                cut_ok = is_param(a[0], ts) and "'max_bucket_duration'" in repr(a[1])
+                # the comparison(s) of a bucket's begin with the cutoff, wherever they are written (retain/filter closure,
+                # map_or closure, loop body)
+                cmps = []
+                for g_ in f.region():
+                    for op, x, y, _bb in comparisons(g_):
+                        bx, by = "'begin'" in repr(x), "'begin'" in repr(y)
+                        if bx == by:
+                            continue
+                        other = y if bx else x
+                        if "'bucket_duration'" in repr(x) + repr(y):
+                            continue  # membership test of a sample in a bucket's interval
+                        if g_ is f and is_param(sym_through(other), ts):
+                            continue  # comparison with the sample's own timestamp
+                        if by:
                             op = {"Lt": "Gt", "Le": "Ge", "Gt": "Lt", "Ge": "Le"}[op]
-                        form = f"begin {op} cutoff"
+                        cmps.append(op)
+                if cut_ok and len(cmps) == 1:
+                    form = f"begin {cmps[0]} cutoff"
             preds[nm] = form
             chk.ob("C15.d", f"{f.path} [expiry predicate]", form == "begin Gt cutoff", "buckets are kept iff begin > now - max_bucket_duration" if form == "begin Gt cutoff" else f"expiry predicate is `{form}`", f.loc())
         if len(preds) == 2:
@@ -276,6 +333,12 @@ def run(ctx):
                         upper = True
                     if lab is True and sym_is_call(dd, "PartialOrd::gt") and is_param(sym_through(dd[2][1]), 2) and "Add::add" in repr(dd[2][0]) and "'bucket_duration'" in repr(dd[2][0]):
                         upper = True
+                    if lab is True and sym_is_call(dd, "Range<Idx>::contains", "RangeBounds::contains", "contains") and len(dd[2]) == 2 and is_param(sym_through(dd[2][1]), 2):
+                        rg = strip_sym(dd[2][0])
+                        if rg[0] == "agg" and (rg[5] or "").endswith("ops::range::Range") and len(rg[3]) == 2:
+                            lo_, hi_ = strip_sym(rg[3][0]), strip_sym(rg[3][1])
+                            if "'begin'" in repr(lo_) and "'bucket_duration'" not in repr(lo_) and "'begin'" in repr(hi_) and "'bucket_duration'" in repr(hi_) and "Add::add" in repr(hi_):
+                                lower = upper = True  # begin <= ts < begin + bucket_duration
                 okw = lower and upper
             chk.ob("C15.d", f"{add.path} [bucket membership]", okw, "a sample joins an existing bucket only when begin <= ts < begin + bucket_duration" if okw else "a sample can be merged into an existing bucket without both bounds (begin <= ts and ts < begin + bucket_duration) holding: samples older than the window end up in the newest bucket and the quantiles cover expired data", add.loc())
             cu = field_updates(add, "count")
